@@ -91,6 +91,11 @@ def run(outcome, tier, seed):
                      ["-t", "yaml", "m.json"], ["-t", "json", "c.toml", "d.msgpack"], ["--help"], ["-V"], ["-t", "json", "missing.json"]):
             cases.append(cli.Case(argv, None, "devfull"))
         cases.append(cli.Case(["-t", "json"], STDIN, "devfull"))
+        # operands that look like options, option values that look like options, names that are not UTF-8
+        for argv in (["--", "--help"], ["--", "--version"], ["-tj", "--", "--help", "-q"], ["-t", "--help"], ["-f", "--version", "a.json"],
+                     ["-t--help"], ["--", "-q"], ["-ty", "--", "-"], ["caf\udce9.json"], ["-ty", "a.json", "caf\udce9.json"],
+                     ["a.json", "missing\udcfe.json"], ["\udcff\udcfe.YAML"], ["-f", "j\udce9", "a.json"], ["--", "caf\udce9.json", "--help"]):
+            cases.append(cli.Case(argv, STDIN, "pipe"))
         results = cli.predict_and_run(common.XT_DEBUG, fx.dir, cases)
         hist, nontrivial = {}, 0
         for r in results:
